@@ -513,6 +513,8 @@ class C20(Property):
              ("antismash/main.py", "write_profiling_results"),
              ("antismash/common/logs.py", "changed_logging"),
              ("antismash/common/serialiser.py", "AntismashResults.from_file"),
+             ("antismash/common/serialiser.py", "AntismashResults.SCHEMA_VERSION"),
+             ("antismash/common/serialiser.py", "AntismashResults.COMPATIBLE_SCHEMAS"),
              ("antismash/main.py", "read_data"),
              ("antismash/config/args.py", "FullPathAction")]
     RULE = ("systematic fault injection: every (record, module) position of every n x m grid (n,m <= 3 quick, "
@@ -531,7 +533,8 @@ class C20(Property):
             "read_data (every position x 14 JSON values); run_antismash with the real changed_logging and the real "
             "command-line parser (log file inside / below / outside the directory) x directory states (incl. foreign "
             "files called profiling_results) x results x 11 option sets over --profiling / --debug / --verbose / "
-            "--list-plugins / --check-prereqs / failing prerequisites / invalid options / no module; "
+            "--list-plugins / --check-prereqs / failing prerequisites / invalid options / no module; the real read_data / "
+            "from_file on no input, empty / non-JSON reuse files and results documents of schema 0-7 or without the key; "
             "write_to_file / dump_records in a second interpreter whose default text encoding is ASCII, non-ASCII "
             "characters at every record/module position; _run_antismash on directory x fault-position products; non-trivial = a fault with pre-existing target "
             "content, a non-empty existing directory, or any pipeline run")
@@ -938,6 +941,16 @@ class C20(Property):
                             yield {"kind": "pipeline", "family": "outer", "outer": True, "target": target,
                                    "input": self.MODES[mode], "dirname": "out", "logpath": logpath,
                                    "results": results, "opts": opts}
+        # what `read_data` finds, with the real `read_data` / `from_file`: nothing, an empty or non-JSON reuse
+        # file, results documents of schema 0..7 or without the key
+        empty = {"records": [], "results": [], "timings": ["dict", []]}
+        for inp in ("nothing", "empty", "notjson", "noschema", 0, 1, 2, 3, 4, 5, 7):
+            for target in ("absent", [], [ent("notes.txt", False)], [ent("run.log", False), ent("base.json", False),
+                                                                      ent("r.region001.gbk", False)]):
+                for profile in (False, True):
+                    yield {"kind": "pipeline", "family": "outer", "outer": True, "target": target, "input": "base.json",
+                           "dirname": "out", "logpath": "{out}/run.log", "results": empty,
+                           "opts": {"input": inp, "profile": profile}}
         if full:
             for logpath in ("out/run.log", "./out/logs/x.log"):
                 for target in targets[:6]:
@@ -1252,6 +1265,24 @@ class C20(Property):
             rec.events.append("prepared")
 
         opts = case.get("opts", {})
+        real_read = bool(case.get("reload"))
+        seq_arg: Optional[str] = None if reuse else input_path
+        kind_of_input = opts.get("input")
+        if case.get("outer") and kind_of_input not in (None, "sequence"):
+            # what `read_data` finds is real: no input at all, or a reuse file with the given content
+            real_read = True
+            seq_arg = None
+            if kind_of_input == "nothing":
+                reuse = False
+            else:
+                reuse = True
+                input_path = os.path.join(path, "base.json")
+                doc: Dict[str, Any] = {"version": "0", "input_file": "seq.gbk", "records": [], "taxon": "bacteria"}
+                if isinstance(kind_of_input, int):
+                    doc["schema"] = kind_of_input
+                text = {"empty": "", "notjson": "this is not a results file"}.get(kind_of_input, std_json.dumps(doc))
+                with open(input_path, "w", encoding="utf-8") as handle:
+                    handle.write(text)
 
         def prerequisites(_modules: Any, _options: Any) -> None:
             if not opts.get("prereqs_ok", True):
@@ -1280,7 +1311,7 @@ class C20(Property):
                                   lambda _m, _o: ["stub"] if opts.get("any_module", True) else []), \
                 mock.patch.object(main, "check_prerequisites", prerequisites), \
                 mock.patch.object(main, "verify_options", lambda _o, _m: opts.get("options_valid", True)), \
-                mock.patch.object(main, "read_data", main.read_data if case.get("reload")
+                mock.patch.object(main, "read_data", main.read_data if real_read
                                   else (lambda _s, _o: results)), \
                 mock.patch.object(main, "run_detection", lambda _r, _o, _m: {}), \
                 mock.patch.object(record_processing, "pre_process_sequences", passthrough), \
@@ -1312,7 +1343,7 @@ class C20(Property):
                                       reuse_results=input_path if reuse else "")
             try:
                 if case.get("outer"):
-                    code = main.run_antismash(None if reuse else input_path, options)
+                    code = main.run_antismash(seq_arg, options)
                 else:
                     main._run_antismash(None if reuse else input_path, options)  # pylint: disable=protected-access
             except Exception as exc:  # pylint: disable=broad-except
